@@ -249,7 +249,7 @@ class Engine(ExprMixin, StmtMixin, CallMixin):
                 s = st
                 gs = []
                 for i, fs in enumerate(sort[1]):
-                    v, s = self.fresh_of_sort(fs, '%s|%d' % (name, i), s)
+                    v, s = self.fresh_of_sort(fs, '%s_alt%d' % (name, i), s)
                     alts.append(v)
                 sel = fresh('which_' + name)
                 s = s.clone()
